@@ -20,7 +20,7 @@ import (
 	"verif/harness/sm"
 )
 
-const ruleC10 = "triples (a, b, c) of values drawn from boundary-rich pools (wide regime: integers of any magnitude incl. int64/uint64 extremes, no floats; mixed regime: |n| <= 2^53 with floats incl. -0.0, +-Inf, +-MaxFloat64, denormals), strings with 0x00/0xFF bytes and prefix relations, nested arrays/objects, empty containers, times 1678..2262 in several zones; b and c are frequently derived from a (same number in another kind, neighbours, prefixes/extensions, same instant in another zone). Oracles: (1) sign of clover's comparison - read off Field(f).Gt/Lt/Eq/GtEq/LtEq(b).Satisfy({f:a}) - equals the reference comparator; (2) reflexive, sign-antisymmetric, transitive on the triple; (3) for numbers within 2^53 and times from 1970: sign(bytes.Compare(K(a),K(b))) = sign(cmp(a,b)) with K the key bytes index.Add writes (recording transaction), equal values <=> identical keys. An evaluation is one triple; non-trivial when two of the values are distinct values of the same type rank, or a numeric cross-kind pair, or the triple spans >= 2 ranks; distinct = distinct triples."
+const ruleC10 = "triples (a, b, c) of values drawn from boundary-rich pools (wide regime: integers of any magnitude incl. int64/uint64 extremes, no floats; mixed regime: |n| <= 2^53 with floats incl. -0.0, +-Inf, +-MaxFloat64, denormals), strings with 0x00/0xFF bytes and prefix relations, nested arrays/objects, empty containers, times 1678..2262 and far beyond (year 1, 1066, 1600, 2300, 9999) in several zones; b and c are frequently derived from a (same number in another kind, neighbours, prefixes/extensions, same instant in another zone). Oracles: (1) sign of clover's comparison - read off Field(f).Gt/Lt/Eq/GtEq/LtEq(b).Satisfy({f:a}) - equals the reference comparator; (2) reflexive, sign-antisymmetric, transitive on the triple; (3) for numbers within 2^53 and times from 1970: sign(bytes.Compare(K(a),K(b))) = sign(cmp(a,b)) with K the key bytes index.Add writes (recording transaction), equal values <=> identical keys. An evaluation is one triple; non-trivial when two of the values are distinct values of the same type rank, or a numeric cross-kind pair, or the triple spans >= 2 ranks; distinct = distinct triples."
 
 type c10Case struct {
 	A, B, C cs.V
@@ -193,7 +193,7 @@ func TestC10(t *testing.T) {
 	col := collector("C10", ruleC10)
 	check(t, "C10", cases(40000, 2000000), 0, func(rt *rapid.T) {
 		wide := rapid.IntRange(0, 2).Draw(rt, "wide") == 0
-		cfg := gen.ValCfg{Wide: wide, NonUTF8: true, Inf: !wide, TimeWide: true, MaxDepth: 2, LongStr: true}
+		cfg := gen.ValCfg{Wide: wide, NonUTF8: true, Inf: !wide, TimeWide: true, TimeFar: true, MaxDepth: 2, LongStr: true}
 		depth := rapid.SampledFrom([]int{0, 0, 1, 2}).Draw(rt, "depth")
 		a := gen.Value(cfg, depth).Draw(rt, "a")
 		var b, c interface{}
